@@ -364,7 +364,7 @@ def agg_spec(rng: random.Random, name: str, maxlen: int = 8) -> dict:
             spec["srcs"] = [raw_seq(rng, pool, maxlen if rng.random() < 0.7 else 1)]
             # keys that are not defined for every item (-"a", None // 2) or fail outright: the builtin calls the
             # key for EVERY item, also for the only one, and fails the same way
-            spec["fns"] = [rng.choice([None, None, "ident", "neg", "half", "failkey"])]
+            spec["fns"] = [rng.choice([None, None, "ident", "neg", "half", "failkey", "nonekey", "dictkey"])]
         r = rng.random()
         if r < 0.3 or (not spec["srcs"][0] and r < 0.7):
             # (a default is handed back AS IS - also one that happens to be awaitable, or merely looks like it)
@@ -401,7 +401,7 @@ def agg_spec(rng: random.Random, name: str, maxlen: int = 8) -> dict:
         else:
             spec["raw"] = True
             spec["srcs"] = [raw_seq(rng, {"unorderable": RAW_UNORDERABLE, "nan": RAW_NAN}[cls], maxlen if rng.random() < 0.7 else 1)]
-            spec["fns"] = [rng.choice([None, None, "ident", "neg", "half", "failkey"])]
+            spec["fns"] = [rng.choice([None, None, "ident", "neg", "half", "failkey", "nonekey", "dictkey"])]
         if rng.random() < 0.5:
             spec["params"]["reverse"] = True
         return spec
@@ -434,7 +434,7 @@ def agg_spec(rng: random.Random, name: str, maxlen: int = 8) -> dict:
             spec["raw"] = True
             pool = RAW_UNORDERABLE
             spec["srcs"] = [raw_seq(rng, pool, maxlen if rng.random() < 0.8 else 1)]
-            spec["fns"] = [rng.choice([None, None, None, None, "ident", "ident", "neg", "half", "failkey"])]
+            spec["fns"] = [rng.choice([None, None, None, None, "ident", "ident", "neg", "half", "failkey", "nonekey", "dictkey"])]
         spec["params"]["n"] = rng.randint(0, len(spec["srcs"][0]) + 2)
         return spec
     raise ValueError(name)
